@@ -1,5 +1,5 @@
 """C03 — results independent of atom labelling and internal qubit reordering."""
-from ..rules import config, perm, tagkey
+from ..rules import drivers, config, perm, tagkey
 
 META = {
     "title": "Results are independent of atom labelling and internal qubit reordering",
@@ -29,3 +29,4 @@ def check(ctx):
     tagkey.check(ctx)
     config.helpers_gather(ctx)   # PERM's transfer functions assume gather-type helpers
     ctx.floor("PERM-sink", 9)
+    drivers.results_helpers(ctx)
